@@ -14,6 +14,7 @@ import (
 	"strings"
 
 	netty "github.com/go-netty/go-netty"
+	"github.com/go-netty/go-netty/transport"
 	"github.com/go-netty/go-netty/zz_verif/mock"
 	"github.com/go-netty/go-netty/zz_verif/vsched"
 )
@@ -68,19 +69,40 @@ func (r *Reader) HandleRead(ctx netty.InboundContext, msg netty.Message) {
 	}
 }
 
+// Wrap selects one of the library's buffering transport wrappers (transport.NewTransport(conn,
+// R, W)) between the channel and the mock, which then plays the raw connection. The zero value
+// means the channel talks to the mock directly.
+type Wrap struct{ R, W int }
+
+func (w Wrap) String() string {
+	if w == (Wrap{}) {
+		return ""
+	}
+	return fmt.Sprintf("buffered(r=%d,w=%d)", w.R, w.W)
+}
+
 // NewEnv builds pipeline(handlers...) + channel and serves it (returns once the
 // active event has been delivered, as Connect/accept do).
 func NewEnv(cfg ChanCfg, parent context.Context, handlers ...netty.Handler) *Env {
+	return NewEnvWrap(cfg, Wrap{}, parent, handlers...)
+}
+
+func NewEnvWrap(cfg ChanCfg, wrap Wrap, parent context.Context, handlers ...netty.Handler) *Env {
 	if parent == nil {
 		parent = context.Background()
 	}
 	e := &Env{T: mock.NewTransport("t1"), Ctx: parent}
+	var tr transport.Transport = e.T
+	if wrap != (Wrap{}) {
+		e.T.Wrapped = true
+		tr = transport.NewTransport(e.T, wrap.R, wrap.W)
+	}
 	e.PL = netty.NewPipeline()
 	if len(handlers) == 0 {
 		handlers = []netty.Handler{&Reader{}}
 	}
 	e.PL.AddLast(handlers...)
-	e.Ch = cfg.Factory()(1, parent, e.PL, e.T, netty.AsyncExecutor())
+	e.Ch = cfg.Factory()(1, parent, e.PL, tr, netty.AsyncExecutor())
 	e.PL.ServeChannel(e.Ch)
 	return e
 }
